@@ -237,8 +237,15 @@ func (c *Channel) Invoke(ctx context.Context, method string, req, resp interface
 		cloner = ProtoCloner{}
 	}
 
+	// The handler decodes the request on the server goroutine, possibly after
+	// this call has returned (e.g. on cancellation). So it must not read the
+	// caller's message, which the caller is free to re-use by then.
+	reqCopy, err := cloner.Clone(req)
+	if err != nil {
+		return err
+	}
 	codec := func(out interface{}) error {
-		return cloner.Copy(out, req)
+		return cloner.Copy(out, reqCopy)
 	}
 	ctx, cancel := context.WithCancel(ctx)
 	sts := internal.UnaryServerTransportStream{Name: method}
